@@ -304,11 +304,20 @@ class SharedCoreHistory(Obligation):
         o = r["outcomes"]
         if o[0] != "ok" or o[1] != "ok":
             return "forced generation failed: %r" % (o,)
-        if which in ("c09", "both") and not force and not changed:
+        if which in ("c09", "both") and not force and not (changed and who == "a" and not bool(inp["ca2"] == inp["ca"])):
             if o[2] != "ok":
                 return "non-force re-run of client %s over its up-to-date output ended %s" % (who, o[2])
             if r["touched3"]:
                 return "non-force re-run touched %d paths" % r["touched3"]
+        if which in ("c10", "both") and not force:
+            # C10: whatever the outcome, a run without force leaves the project tree (incl. the shared registry) untouched,
+            # and it raises when the document changed
+            if r["touched3"]:
+                return "non-force run of client %s touched %d paths of the existing tree" % (who, r["touched3"])
+            really_changed = changed and who == "a" and not bool(inp["ca2"] == inp["ca"])
+            want = "generation_error" if really_changed else "ok"
+            if o[2] != want:
+                return "non-force run of client %s (document %s) ended %s, expected %s" % (who, "changed" if changed else "unchanged", o[2], want)
         if which in ("c11", "both"):
             ca, cb, ca2 = inp["ca"], inp["cb"], inp["ca2"]
             if not self._lists(r["listed"][0], ca):
